@@ -10,6 +10,7 @@
 """
 import os
 import sys
+import time as _real_time
 import traceback
 
 import numpy as np
@@ -206,10 +207,11 @@ class VirtualClock:
     are scripted by `display_bits`: the k-th `should_display()` sees an elapsed time
     above the interval iff bit k is set (bits are cycled).  Every read is logged."""
 
-    T0 = 1000.0
-    D0 = 5000.0
-
     def __init__(self, expire_at=None, time_limit=None, display_bits=None, display_interval=0.1, ramp=None):
+        # the virtual clock continues the real one (frozen at its creation), so that anything the code
+        # under test captured from the real clock earlier (e.g. at import) stays comparable
+        self.T0 = _real_time.time()
+        self.D0 = self.T0 + 4000.0
         # ramp=tick: deadline reads return T0 + k*tick for the k-th read instead of jumping; the
         # deadline then passes at the first read with k*tick >= time_limit
         self.ramp = ramp
@@ -286,19 +288,23 @@ class Patch:
 
 
 class _PenaltyProxy:
-    def __init__(self, inner, trace):
+    """Wraps whatever penalty strategy the solver installs (wherever it does so) and logs
+    its decisions into the trace of the solve in progress."""
+
+    def __init__(self, inner, owner):
         self._inner = inner
-        self._trace = trace
+        self._owner = owner
 
     def initial(self, iterate):
         r = self._inner.initial(iterate)
-        self._trace.penalty_initial = r
+        self._owner.trace.penalty_initial = r
         return r
 
     def update(self, prev_iterate, next_iterate):
         res = self._inner.update(prev_iterate, next_iterate)
-        self._trace.penalty.append({"trial": len(self._trace.trials) - 1, "accept": bool(res.accept),
-                                    "next_rho": res.next_rho, "ynorm": _ninf(next_iterate.y)})
+        tr = self._owner.trace
+        tr.penalty.append({"trial": len(tr.trials) - 1, "accept": bool(res.accept),
+                           "next_rho": res.next_rho, "ynorm": _ninf(next_iterate.y)})
         return res
 
     def __getattr__(self, name):
@@ -325,12 +331,22 @@ def make_monitored_solver(problem, params, extra_callbacks=0):
 
     class MonitoredSolver(Solver):
         def __init__(self, problem, params):
-            super().__init__(problem, params)
             self.trace = Trace()
+            super().__init__(problem, params)
             self.callbacks.register(CallbackType.ComputedStep, self._on_step)
             self.extra_calls = 0
             for _ in range(extra_callbacks):
                 self.callbacks.register(CallbackType.ComputedStep, self._extra)
+
+        # the penalty strategy is observed through a proxy installed by attribute assignment, so that
+        # it does not matter where the solver creates it
+        @property
+        def penalty_strategy(self):
+            return self.__dict__.get("_penalty_proxy")
+
+        @penalty_strategy.setter
+        def penalty_strategy(self, value):
+            self.__dict__["_penalty_proxy"] = value if isinstance(value, _PenaltyProxy) else _PenaltyProxy(value, self)
 
         def _extra(self, iterate, next_iterate, accept):
             # a user callback that looks at things
@@ -360,20 +376,10 @@ def make_monitored_solver(problem, params, extra_callbacks=0):
             return res
 
         def solve(self, x0=None, y0=None):
-            import pygradflow.solver as S
-
             self.trace = Trace()
-            real = S.penalty_strategy
-            trace = self.trace
-
-            def factory(problem, params):
-                return _PenaltyProxy(real(problem, params), trace)
-
-            ACTIVE["trace"] = trace
+            ACTIVE["trace"] = self.trace
             try:
-                with Patch() as p:
-                    p.set(S, "penalty_strategy", factory)
-                    return super().solve(x0, y0)
+                return super().solve(x0, y0)
             finally:
                 ACTIVE["trace"] = None
 
